@@ -218,6 +218,37 @@ def rule_n5(repo, col):
                **({} if rets else {"construct": "def notify_cycle: return", "function": "StackBasedEngine.notify_cycle"}))
 
 
+def rule_n9(repo, col):
+    """find_cycle hands notify_cycle only nodes of the cycle: the whole chain only when it closed on `parent`, otherwise the prefix up to the cycle root"""
+    f = repo.func(ES, "StackBasedEngine.find_cycle")
+    m = f.module
+    g = cfgmod.build(f.node)
+    facts = cfgmod.available_facts(g)
+    child, parent = f.params[1], f.params[2]
+    n = 0
+    for node in g.stmt_nodes():
+        if node.kind != "stmt" or not isinstance(node.ast, ast.Return) or facts.get(node.id) is None:
+            continue
+        n += 1
+        v = norm(node.ast.value) if node.ast.value is not None else "None"
+        st = facts[node.id]
+        if v == "cycle":
+            ok = ("%s == %s" % (child, parent), True) in st
+            col.decide("N9", m, node.ast, ok, "the whole chain is returned only when it closed on the cycle parent",
+                       "find_cycle returns the whole ancestor chain on a path where it did not reach the cycle parent: notify_cycle then calls createCycle on nodes above the cycle "
+                       "(an EvalNot there raises a spurious NegativeCycle for a program without a cycle through negation)")
+        elif v.startswith("cycle[:"):
+            var = v[len("cycle[:"):-1]
+            ok = ("%s is None" % var, False) in st or ("%s is not None" % var, True) in st
+            col.decide("N9", m, node.ast, ok, "otherwise only the prefix up to the active cycle root is returned", "the truncated chain may only be returned when the cycle root was encountered")
+        elif v in ("None", "cycle + cycle_rest"):
+            col.ok("N9", m, node.ast, "no cycle / cycle through a sibling")
+        else:
+            raise AnalysisError("find_cycle: return shape not understood: %s" % v)
+    if n < 3:
+        raise AnalysisError("find_cycle: returns not found")
+
+
 def rule_n8(repo, col):
     ef = ExcFlow(repo)
     neg = repo.cls(EN, "NegativeCycle")
@@ -267,3 +298,5 @@ def run(repo, col):
     rule_n4(repo, col)
     rule_n5(repo, col)
     rule_n8(repo, col)
+    col.rule("N9", "find_cycle returns only nodes of the cycle")
+    rule_n9(repo, col)
